@@ -14,7 +14,7 @@ from __future__ import annotations
 from textwrap import dedent
 
 from flowmark.formats.flowmark_markdown import ListSpacing, flowmark_markdown
-from flowmark.formats.frontmatter import split_frontmatter
+from flowmark.formats.frontmatter import frontmatter_is_closed, split_frontmatter
 from flowmark.linewrapping.line_wrappers import (
     line_wrap_by_sentence,
     line_wrap_to_width,
@@ -74,6 +74,11 @@ def fill_markdown(
 
     # Extract frontmatter before any processing
     frontmatter, content = split_frontmatter(markdown_text)
+
+    # Unclosed frontmatter: the whole document is frontmatter and nothing should change
+    # (apart from ensuring a final newline), however often it is formatted.
+    if frontmatter and not frontmatter_is_closed(frontmatter):
+        return frontmatter if frontmatter.endswith("\n") else frontmatter + "\n"
 
     # Only format the content part if there's frontmatter
     if frontmatter:
